@@ -34,6 +34,7 @@ from unified_planning.model import (
 from unified_planning.model.problem_kind_versioning import LATEST_PROBLEM_KIND_VERSION
 from unified_planning.model.walkers.identitydag import IdentityDagWalker
 from unified_planning.model.walkers.dnf import Nnf
+from unified_planning.model.operators import TRAJECTORY_CONSTRAINTS
 from unified_planning.engines.compilers.utils import (
     get_fresh_name,
     replace_action,
@@ -53,6 +54,16 @@ class NegativeFluentRemover(IdentityDagWalker):
         self._nnf = Nnf(self._env)
 
     def remove_negative_fluents(self, expression: FNode) -> FNode:
+        if expression.node_type in TRAJECTORY_CONSTRAINTS or (
+            expression.is_and()
+            and any(a.node_type in TRAJECTORY_CONSTRAINTS for a in expression.args)
+        ):
+            # the NNF conversion does not look inside the temporal operators of a
+            # trajectory constraint: convert their arguments
+            return self._env.expression_manager.create_node(
+                expression.node_type,
+                tuple(self.remove_negative_fluents(a) for a in expression.args),
+            )
         exp = expression
         nnf_exp = self._nnf.get_nnf_expression(exp)
         exp = self.walk(self._env.simplifier.simplify(nnf_exp))
